@@ -741,4 +741,52 @@ theorem NXActionOutputReg_loc_partial (recv : V) {s t : Slice} (haw : AW s t) (h
       | simp only [MatchField.unmarshalHeader, Slice.AW.bytes_eq ‹AW _ _›]
   · rfl
 
+/-! ### the round-3 over-read frames fail the final predicates; an Open-vSwitch-style flow-stats reply passes -/
+
+theorem fmCex_not_inframe2 : ¬ FlowModInFrame2 fmCexT := by
+  intro h
+  have hb : fmCexT.bytes = fmFrame := by rfl
+  unfold FlowModInFrame2 at h
+  rw [hb] at h
+  have h' := h.2 (Slice.exact fmFrame) (.obj "Header" [.num 4, .num 14, .num 64, .num 7], false) ⟨fmFrame.drop 48, 16⟩
+    (.obj "Match" [.num 1, .num 4, .list []], false) (8, .obj "Match" [.num 1, .num 4, .list []]) rfl rfl rfl rfl rfl
+  have hf : instrsOK2 (Slice.exact fmFrame) 64 ((Slice.exact fmFrame).len + 2) (48 + 8) = false := rfl
+  exact absurd (h'.symm.trans hf) (by decide)
+
+theorem mpCex_not_inframe2 : ¬ FlowStatsInFrame2 mpCexT := by
+  intro h
+  have hb : mpCexT.bytes = mpFrame := by rfl
+  unfold FlowStatsInFrame2 at h
+  rw [hb] at h
+  have h' := h.2 (.obj "Header" [.num 4, .num 19, .num 80, .num 7], false) 1 rfl rfl
+  have hf : recordsOK2 anyLenM (Slice.exact mpFrame) 1 80 ((Slice.exact mpFrame).len + 2) 16 = false := rfl
+  exact absurd (h'.symm.trans hf) (by decide)
+
+/-- a conformant flow-stats reply of 128 bytes: one record of 112 bytes, apply-actions [set-field in_port:=1, resubmit-table 5,
+    ct_clear] -/
+def mpOvsFrame : Bytes :=
+  [4, 19, 0, 128, 0, 0, 0, 7, 0, 1, 0, 0, 0, 0, 0, 0] ++
+  ([0, 112, 0, 0] ++ zeros 44 ++ [0, 1, 0, 4, 0, 0, 0, 0] ++ [0, 4, 0, 56, 0, 0, 0, 0] ++
+   [0, 25, 0, 16, 0x80, 0, 0, 4, 0, 0, 0, 1, 0, 0, 0, 0] ++
+   [0xff, 0xff, 0, 16, 0, 0, 0x23, 0x20, 0, 14, 0xff, 0xf8, 5, 0, 0, 0] ++
+   [0xff, 0xff, 0, 16, 0, 0, 0x23, 0x20, 0, 43, 0, 0, 0, 0, 0, 0])
+
+set_option maxRecDepth 8000 in
+theorem mpOvsFrame_inframe2 (tail : Bytes) : FlowStatsInFrame2 ⟨mpOvsFrame ++ tail, 128⟩ := by
+  have hb : (Slice.mk (mpOvsFrame ++ tail) 128).bytes = mpOvsFrame := by
+    unfold Slice.bytes
+    show List.take 128 (mpOvsFrame ++ tail) = mpOvsFrame
+    rw [List.take_append_of_le_length (by decide)]
+    exact List.take_of_length_le (by decide)
+  unfold FlowStatsInFrame2
+  rw [hb]
+  refine ⟨by decide, ?_⟩
+  intro hp mt hhp hmt
+  have ehp : msgTryU Header.unmarshal Header.zero (Slice.exact mpOvsFrame) =
+      .ok (.obj "Header" [.num 4, .num 19, .num 128, .num 7], false) := rfl
+  rw [ehp] at hhp; cases hhp
+  have emt : (Slice.exact mpOvsFrame).u16From 8 = .ok 1 := rfl
+  rw [emt] at hmt; cases hmt
+  rfl
+
 end OFV.Model
